@@ -303,6 +303,7 @@ def model_lines(inst, raw_before, log, raw_after, res_after, compress, filestate
 
 
 PK_STATS = {"files": 0, "files_with_backrefs": 0, "backrefs": 0}
+SAVE_STATE_SKIPS_SESSIONLESS = [False]                    # probed: GET /save-state works while an instance has no session yet
 KEEPS_EMPTY_INNER = [False]                               # probed: the compressed format keeps {"smA": {}} (else compared up to those)
 
 
@@ -444,6 +445,9 @@ def _run_case(case, base):
             ids.append(iid); logs.append(log)
         if viol:
             return req, exp, viol
+        if case.get("idle") and SAVE_STATE_SKIPS_SESSIONLESS[0]:
+            post(srv.client, "/start-instance")           # an instance that never begins a session: nothing to externalise,
+                                                          # and it must not keep /save-state from saving the others
         for route in ("instance", "server"):
             before = [observe(srv, iid) for iid in ids]
             if route == "instance":
@@ -567,7 +571,7 @@ def gen_case(rng, quick):
         n = rng.range(0, 4 if quick else 7)
         insts.append({"sms": sms, "scs": scs, "eqs": eqs, "steps": [gen_step(rng, sms, scs) for _ in range(n)],
                       "extra": [gen_step(rng, sms, scs) for _ in range(rng.range(0, 2))]})
-    return {"spec": spec, "compress": rng.chance(2, 3), "instances": insts}
+    return {"spec": spec, "compress": rng.chance(2, 3), "instances": insts, "idle": rng.chance(1, 3)}
 
 
 def exhaustive_cases(quick):
@@ -597,7 +601,7 @@ def exhaustive_cases(quick):
     for starts, dts in ((STARTS, DTS), (STARTS10, DTS10)):
         for start in starts:
             for dt in dts:
-                for compress in (True, False):
+                for compress in ((True, False) if not quick or (len(out) // 2) % 2 == 0 else (len(out) % 4 == 1,)):
                     out.append({"spec": {"start": start, "dt": dt, "stop": round(start + 14 * dt, 6)}, "compress": compress,
                                 "instances": [{"sms": ["smA", "smB"], "scs": ["a", "b"], "eqs": ["s", "g"],
                                                "steps": copy.deepcopy(mixed), "extra": [copy.deepcopy(alpha[0]), copy.deepcopy(alpha[4])]}]})
@@ -657,6 +661,13 @@ def probe(base):
     except Exception:
         facts["compressionKeepsEmptyInner"] = False
     KEEPS_EMPTY_INNER[0] = facts["compressionKeepsEmptyInner"]
+    # wave 2 -- whole-server save while one instance has not begun a session
+    idle = {"spec": {"start": 2.0, "dt": 0.5, "stop": 8.0}, "compress": False, "idle": True,
+            "instances": [{"sms": ["smA"], "scs": ["a"], "eqs": ["s"], "steps": [{"k": "empty"}], "extra": []}]}
+    SAVE_STATE_SKIPS_SESSIONLESS[0] = True
+    _, _, v = run_case(idle, base)
+    facts["saveStateSkipsSessionless"] = not any(k.startswith("save-state-http") for k, _, _ in v)
+    SAVE_STATE_SKIPS_SESSIONLESS[0] = facts["saveStateSkipsSessionless"]
     # wave 2 -- the pickler: a real session state in which one settings object is logged for several steps
     facts.update(probe_pickle(base))
     return facts
@@ -844,16 +855,21 @@ def _run(chk, base):
         "hand-written model lean/Bptk/Core/C19.lean of run_step logging, statecompression (repaired format), ExternalStateAdapter/FileAdapter, "
         "_get_instance_state/reconstruct_instance; tied to the source by the probe obligations of Gen/C19.lean (model compress/decompress = real "
         "compress/decompress on a probe log) and by the correspondence run of this check",
-        "nested settings/result dictionaries flattened to path-keyed rows; jsonpickle/json modelled as an abstract lawful codec "
-        "(dec (enc e) = some e), validated by the correspondence through real files",
+        "nested settings/result dictionaries flattened to path-keyed rows; jsonpickle modelled concretely for the settings part (object graph with "
+        "identities, py/id back-references, pickler/unpickler proved inverse; tied by probe_pickle_* obligations on a real state and the `pk` "
+        "correspondence line on every written file), abstractly (lawful codec) for the rest of the envelope",
         "JSON stringification of float step keys treated as canonicalisation (keys compared as repr(float(key)))",
     ]
-    chk.assumptions = ["settings dictionaries are in normal form (no empty inner dictionary such as {'smA': {}})",
-                       "start time and dt on the dyadic lattice (float step arithmetic exact; drift is C05's subject)",
+    chk.assumptions = ["a settings dictionary is its set of leaves: dictionaries without a value ({'smA': {}}) are generated; plain mode restores them "
+                       "exactly, the compressed format only when probe compressionKeepsEmptyInner holds (repair C19-compressed-empty-inner), else the "
+                       "comparison is up to those (named partial clause)",
+                       "start time and dt on the dyadic (1/1024) or the decimal (1/10000) lattice; the session clock is snapped to the decimal grid (C05)",
+                       "object sharing at the granularity of whole settings objects per step (and their list values in compressed mode)",
                        "dt > 0; every requested equation exists in every selected scenario's model; SD sessions only",
                        "instances without a begun session are not externalised (outside the statement)"]
     chk.cov["rule"] = ("a case = run spec from the lattice start x dt, 1-3 instances each with its own step history (settings / {} / no body / "
-                       "run-steps) and adapter mode; per case: per-instance reload, continued steps, whole-server save/load; compared: "
+                       "run-steps with ONE settings object for numberSteps steps / library run_step(settings=s) loops over a pool of objects / non-normal settings) "
+                       "and adapter mode; per case: per-instance reload, continued steps, whole-server save/load; compared: "
                        "session_state and session-results before save vs after load (reference) and model vs implementation on state, "
                        "compressed file content, restored state, served results (correspondence). exhaustive: all step-kind sequences up to "
                        "length L at start 2.0/dt 0.5 and one mixed history on every lattice point, both modes; non-trivial = at least one step "
